@@ -367,8 +367,18 @@ fn op_replay(job: &Value) -> Value {
     }
     let all = consumed == bytes.len();
     let accepting = if all { m.is_accepting().unwrap_or(false) } else { false };
+    // what can follow: number of allowed tokens in the next mask (0 / error in a non-accepting state = dead end)
+    let mut final_mask_count: i64 = -1;
+    let mut final_mask_err: Option<String> = None;
+    if all && job["final_mask"].as_bool().unwrap_or(false) {
+        match m.compute_mask() {
+            Ok(mask) => final_mask_count = mask.num_set() as i64,
+            Err(e) => final_mask_err = Some(format!("{e}").chars().take(200).collect()),
+        }
+    }
     json!({"ok": true, "consumed": consumed, "all": all, "accepting": accepting, "mask_ok": mask_ok, "acc_trace": acc_trace,
-           "error": m.get_error(), "stopped": m.is_stopped()})
+           "error": m.get_error(), "stopped": m.is_stopped(), "final_mask_count": final_mask_count, "final_mask_err": final_mask_err,
+           "stop_reason": format!("{:?}", m.stop_reason())})
 }
 
 fn main() {
